@@ -106,6 +106,7 @@ pub fn prop() -> HistProp {
     let mut w = Weights::trading();
     w.ecfg = 2;
     w.vcfg = 2;
+    w.rewire = 2;
     HistProp {
         id: "C03",
         level: "exploration",
